@@ -687,7 +687,20 @@ func (cr *c09Run) run() {
 	st.arp.Close()
 	st.icmp6.Close()
 	st.dhcp.Close()
-	s.Close()
+	// Close is called by whoever notices the shutdown first - several goroutines at once (signal handler, the read loop on
+	// its error, a deferred call): every call but one must find the session closed
+	var cwg sync.WaitGroup
+	start := make(chan struct{})
+	for k := 0; k < 4; k++ {
+		cwg.Add(1)
+		go func() {
+			defer cwg.Done()
+			<-start
+			s.Close()
+		}()
+	}
+	close(start)
+	cwg.Wait()
 	cr.stop.Store(true)
 	waited := make(chan struct{})
 	go func() { wg.Wait(); close(waited) }()
